@@ -432,7 +432,7 @@ def in_runner(script):
     for it in script["enums"]:
         try:
             cls = locate(it["path"], it.get("sub") or "")
-            out["enums"].append({"members": {m.name: int(m.value) for m in cls}})
+            out["enums"].append({"members": {n: int(m.value) for n, m in cls.__members__.items()}})   # __members__ keeps aliases
         except BaseException as e:  # noqa
             out["enums"].append({"error": f"{type(e).__name__}: {e}"[:300]})
     return out
